@@ -65,6 +65,10 @@ def c06(ck, tier, seed):
     for drv in ["mtbdd", "tdd"]:
         chk_mv._run(ck, drv, ["C06"], tier, seed + 11)
     import checks
+    # table replay: every operator on every operand (pair) and every cube / variable set of the 3-variable universe
+    # inside one manager per order, the first with a 4096-entry cache that keeps the entries of all earlier calls
+    vlib.ensure_tables()
+    checks._bool_suite(ck, ["C06"], checks._tables_plan(tier, seed + 3, "bool,restrict,quant,zbdd"), tag="tab-")
     checks.store_mc(ck, tier)
     ck.assumptions += ["cache insertion/hit events are not instrumented (no hook): only observable results are judged"]
 
